@@ -120,12 +120,16 @@ def allContributions (pts : List P3) (orig : List Nat) : List KV :=
       (st.boxes.getD p.idx []).foldl (fun c b => addC c p.idx { b with u3 := 0 }.volume) c) st.contrib
   (List.range n).map fun i => (contrib.getD i 0, orig.getD i 0)
 
-/-- the `(contribution, index)` pairs of `HypervolumeContribution3D::smallest/largest(points, k, ref)` before
-sorting and truncation -/
+/-- `allContributions(points, ref)` (since /repo 778c5b2c): points that are not strictly below the reference
+point in every objective get the contribution 0 and are kept out of the sweep; the others are shifted by the
+reference point, sorted by the third objective and swept.  The result of the sweep is sorted ascending by
+`allContributions(front)`; the zeros are put in front of it, so the whole vector is ascending. -/
 def contribs3d (S : List Pt) (r : Pt) : List KV :=
-  let front := S.zipIdx.map fun (p, i) => (({ f1 := px p - px r, f2 := py p - py r, f3 := pz p - pz r, idx := 0 } : P3), i)
+  let ins := S.zipIdx.filter fun (p, _) => inside3 r p
+  let outs := S.zipIdx.filter fun (p, _) => !inside3 r p
+  let front := ins.map fun (p, i) => (({ f1 := px p - px r, f2 := py p - py r, f3 := pz p - pz r, idx := 0 } : P3), i)
   let sorted := front.mergeSort fun a b => decide (a.1.f3 ≤ b.1.f3)
-  allContributions (sorted.map (·.1)) (sorted.map (·.2))
+  (outs.map fun (_, i) => ((0 : Int), i)) ++ sortKV (allContributions (sorted.map (·.1)) (sorted.map (·.2)))
 
 def smallest3d (S : List Pt) (k : Nat) (r : Pt) : List KV := smallestOf (contribs3d S r) k
 def largest3d (S : List Pt) (k : Nat) (r : Pt) : List KV := largestOf (contribs3d S r) k
